@@ -1,0 +1,20 @@
+//go:build verif
+
+package watchers
+
+// Contracts for govc (see /verif/DESIGN.md). Comment-only file: it adds no code.
+
+//@ func checkThreshold
+//@   property C18
+//@   mode bv fp paths
+//@   checks conv
+//@   replay checkThreshold
+//@   requires !(minSpaceRequired >= 17179869184.0)
+//@   ensures [exact] (result != nil) == refuse(total, free, minSpaceRequired) // C18: refuses exactly when free space on the job's volume is below the threshold
+//@ pred refuse(total uint64, free uint64, min float64) = ite(min > 0, free < ceilu64(min * 1073741824.0), ite(total <= 274877906944, free < (25*total+127)/128, free < 53687091200))
+
+//@ lemma mono(total uint64, f1 uint64, f2 uint64, min float64)
+//@   property C18
+//@   mode bv fp
+//@   requires f1 <= f2 && refuse(total, f2, min)
+//@   ensures [mono] refuse(total, f1, min) // C18: with the same volume and setting, more free space never turns an accept into a refusal
